@@ -433,6 +433,8 @@ def step (ds : DState) (line : String) : DState × String :=
   | ["tnc", _idle, _wt, failS, calls] =>
     (ds, let failAt : Option Nat := failS.toNat?
       encLows (Prov.tncRun failAt 0 (decCalls calls)) ++ "\t" ++ encLows (Spec.Life.tncSpec failAt (decCalls calls)))
+  | ["racecheck", _sc, cnt, _summary] =>
+    (ds, let v := if cnt == "0" then "ok" else "violation: the race detector reported " ++ cnt ++ " data race(s)"; v ++ "\t" ++ v)
   | ["closecheck", _sc, obs, _note] =>
     (ds, match Spec.Close.parseObs obs with
       | some o => let v := if Spec.Close.closeLegal o then "ok" else "violation: " ++ obs; v ++ "\t" ++ v
